@@ -9,7 +9,7 @@ use serde_json::{json, Value};
 pub fn items(evs: &[Ev]) -> Vec<Value> {
     // a command that ran into the opcode budget may have produced an enormous response: the
     // first events are enough to see that it differs from the specified one
-    let cap = if matches!(evs.last(), Some(Ev::Budget)) { 200 } else { 3000 };
+    let cap = if matches!(evs.last(), Some(Ev::Budget)) { 200 } else { 200_000 };
     let evs = if evs.len() > cap { &evs[..cap] } else { evs };
     let mut out: Vec<Value> = vec![];
     let mut cur: Option<String> = None;
